@@ -54,7 +54,7 @@ HookStep(S, h, nI, nR) ==
   CASE h.k = "clause" -> [S EXCEPT !.models = Filter(S.models, h.lits)]
     [] h.k = "learnt" ->
          IF h.o = 2 THEN [S EXCEPT !.models = Filter(S.models, h.lits)]    \* the no-good of next(): a new clause
-         ELSE [S EXCEPT !.ok = S.ok /\ Chk({"C07", "C09", "C10", "C02", "C11", "C12"}, "LearntEntailed",
+         ELSE [S EXCEPT !.ok = S.ok /\ Chk({"C07", "C08", "C09", "C10", "C02", "C11", "C12"}, "LearntEntailed",
                                            (\A m \in S.models : ClauseSat(m, h.lits)) = TRUE)]
     [] h.k = "lra" ->
          LET e == LSub(LinOfJson(h.l), LinOfJson(h.r))
@@ -89,14 +89,22 @@ DefOK(M, h) ==
   IF h.kind \in {"eq", "conj", "disj"}
   THEN \A m \in M : LitTrue(m, h.ret) = Meaning(h.kind, m, h.args)
   ELSE \A m \in M : LitTrue(m, h.ret) => Meaning(h.kind, m, h.args)
-\* a freshly built at-most-one / exactly-one literal excludes no assignment of its arguments that satisfies the
-\* cardinality constraint: whenever a model satisfies it, some model with the same argument values makes the literal true
-\* (a literal returned from the expression cache may meanwhile have been constrained by the user, so only fresh ones)
+\* an at-most-one / exactly-one literal excludes no assignment of its arguments that satisfies the cardinality constraint:
+\* - a freshly built literal: whenever a model satisfies the constraint, some model with the same argument values makes the
+\*   literal true (a literal returned from the expression cache may meanwhile have been constrained by the user, so only
+\*   fresh ones);
+\* - a constant answer: FALSE only if no model satisfies the constraint;
+\* - an answer that is one of the arguments or its negation: nothing else decides it, so it must be true in every model
+\*   that satisfies the constraint
 CardNotExcluding(M, nOld, ev) ==
-  (ev.kind \in {"amo", "exo"} /\ VarOf(ev.ret) >= nOld) =>
-     LET av == {VarOf(x) : x \in SeqRange(ev.args)}
-         withLit == {m \cap av : m \in {mm \in M : LitTrue(mm, ev.ret)}}
-     IN \A m0 \in M : Meaning(ev.kind, m0, ev.args) => (m0 \cap av) \in withLit
+  LET av == {VarOf(x) : x \in SeqRange(ev.args)}
+  IN IF ev.kind \notin {"amo", "exo"} THEN TRUE
+     ELSE IF VarOf(ev.ret) >= nOld
+          THEN LET withLit == {m \cap av : m \in {mm \in M : LitTrue(mm, ev.ret)}}
+               IN \A m0 \in M : Meaning(ev.kind, m0, ev.args) => (m0 \cap av) \in withLit
+     ELSE IF VarOf(ev.ret) = 0 \/ VarOf(ev.ret) \in av
+          THEN \A m0 \in M : Meaning(ev.kind, m0, ev.args) => LitTrue(m0, ev.ret)
+     ELSE TRUE
 
 \* C12: a difference-logic relation literal: in every model, true => the asserted difference constraints entail
 \* the relation, false => they entail its negation
